@@ -172,7 +172,7 @@ allow:
   `size_of::<P2>() = p2`
 * bc.rs (`block bytes 4 4`, constructor `new_bc`): `block_4x4::<bytes>` -/
 inductive Body.Matches : C19.SetCtor → PixelInfo → C19.Enc → Body → Prop where
-  | copy (bpp : Nat) (c : C19.ColorFormat) (fl : C19.SymFlags) :
+  | copy (bpp : Nat) (c : C19.ColorFormat) (fl : C19.SymFlags) (hb : (colorOf c).bpp = bpp) :
       Matches .plain (.fixed bpp) ⟨.single c, fl, .plain⟩ .copy
   | convert (bpp : Nat) (p : C19.Precision) (fl : C19.SymFlags) (t : Color) (snorm : Bool)
       (ht : t.psize = precSize p) (hb : t.bpp = bpp) (hs : snorm = true → p ≠ .f32) :
